@@ -29,26 +29,30 @@ theorem regOf_cons (m : List (Nat × Option Nat)) (key : Nat) (o : Option Nat) (
 
 /-! ## what the log says about a leader's inner call -/
 
-/-- the inner call `k` of leader `l` for `key` finished with the value `r` (ok or error) -/
+/-- the inner call `k` of leader `l` for `key` finished with the value `r` (ok or error) and the leader itself
+returned that value to its own caller (so it did not panic while publishing it) -/
 def Delivered (log : List CEv) (l key k : Nat) (r : Res) : Prop :=
-  (r = .ok k ∧ CEv.innerDone l key k .ok ∈ log) ∨
-  (∃ kd, r = .inner kd k ∧ CEv.innerDone l key k (.err kd) ∈ log)
+  (r = .ok k ∧ CEv.innerDone l key k .ok ∈ log ∧ CEv.result l (.ok k) ∈ log) ∨
+  (∃ kd, r = .inner kd k ∧ CEv.innerDone l key k (.err kd) ∈ log ∧ CEv.result l (.inner kd k) ∈ log)
 
-/-- the leader `l` went away without a value: its future was dropped, or its inner call panicked -/
+/-- the leader `l` went away without a value: its future was dropped, or its inner call panicked, or its inner
+call finished but the leader itself panicked in its completing poll (cloning the value for the waiters unwound) -/
 def Cancelled (log : List CEv) (l key k : Nat) : Prop :=
-  CEv.innerDrop l key k ∈ log ∨ CEv.innerDone l key k .panic ∈ log
+  CEv.innerDrop l key k ∈ log ∨ CEv.innerDone l key k .panic ∈ log ∨
+  (CEv.result l .panic ∈ log ∧ ∃ o, CEv.innerDone l key k o ∈ log)
 
 theorem Delivered.mono {log : List CEv} {l key k : Nat} {r : Res} (evs : List CEv)
     (h : Delivered log l key k r) : Delivered (log ++ evs) l key k r := by
-  rcases h with ⟨h1, h2⟩ | ⟨kd, h1, h2⟩
-  · exact Or.inl ⟨h1, List.mem_append_left _ h2⟩
-  · exact Or.inr ⟨kd, h1, List.mem_append_left _ h2⟩
+  rcases h with ⟨h1, h2, h3⟩ | ⟨kd, h1, h2, h3⟩
+  · exact Or.inl ⟨h1, List.mem_append_left _ h2, List.mem_append_left _ h3⟩
+  · exact Or.inr ⟨kd, h1, List.mem_append_left _ h2, List.mem_append_left _ h3⟩
 
 theorem Cancelled.mono {log : List CEv} {l key k : Nat} (evs : List CEv)
     (h : Cancelled log l key k) : Cancelled (log ++ evs) l key k := by
-  rcases h with h | h
+  rcases h with h | h | ⟨h, o, ho⟩
   · exact Or.inl (List.mem_append_left _ h)
-  · exact Or.inr (List.mem_append_left _ h)
+  · exact Or.inr (Or.inl (List.mem_append_left _ h))
+  · exact Or.inr (Or.inr ⟨List.mem_append_left _ h, o, List.mem_append_left _ ho⟩)
 
 /-- what a waiter of leader `l` may legitimately receive -/
 def Fair (log : List CEv) (l key k : Nat) (r : Res) : Prop :=
@@ -507,16 +511,23 @@ theorem finishLeader_inv {s : State} {c key k : Nat} (o : Out) (h : Inv s)
   | ok =>
     refine inv_retire (ch := .sent (.ok k)) (evs := [.innerDone c key k .ok, .result c (.ok k)])
       h hrole hlive (by simp) ⟨by simp, by simp⟩ ?_ (by simp) rfl rfl rfl rfl rfl rfl rfl
-    intro r hr; cases hr; exact Or.inl ⟨rfl, by simp⟩
+    intro r hr; cases hr; exact Or.inl ⟨rfl, by simp, by simp⟩
   | err kd =>
     refine inv_retire (ch := .sent (.inner kd k)) (evs := [.innerDone c key k (.err kd), .result c (.inner kd k)])
       h hrole hlive (by simp) ⟨by simp, by simp⟩ ?_ (by simp) rfl rfl rfl rfl rfl rfl rfl
-    intro r hr; cases hr; exact Or.inr ⟨kd, rfl, by simp⟩
+    intro r hr; cases hr; exact Or.inr ⟨kd, rfl, by simp, by simp⟩
   | panic =>
     refine inv_retire (ch := .closed) (evs := [.innerDone c key k .panic, .result c .panic])
       h hrole hlive (by simp) ⟨by simp, by simp⟩ (by simp) ?_ rfl rfl rfl rfl rfl rfl rfl
-    intro _; exact Or.inr (by simp)
+    intro _; exact Or.inr (Or.inl (by simp))
   | never => exact h
+
+theorem clonePanic_inv {s : State} {c key k : Nat} (o : Out) (h : Inv s)
+    (hrole : lookup s.role c = some (.leader key k)) (hlive : c ∉ s.gone) :
+    Inv (clonePanic s c key k o) := by
+  refine inv_retire (ch := .closed) (evs := [.innerDone c key k o, .result c .panic])
+    h hrole hlive (by simp) ⟨by simp, by simp⟩ (by simp) ?_ rfl rfl rfl rfl rfl rfl rfl
+  intro _; exact Or.inr (Or.inr ⟨by simp, o, by simp⟩)
 
 theorem pollLeader_inv {s : State} {c key k : Nat} (h : Inv s)
     (hrole : lookup s.role c = some (.leader key k)) (hlive : c ∉ s.gone) :
@@ -524,7 +535,9 @@ theorem pollLeader_inv {s : State} {c key k : Nat} (h : Inv s)
   unfold pollLeader
   split
   · split
-    · exact finishLeader_inv _ h hrole hlive
+    · split
+      · exact clonePanic_inv _ h hrole hlive
+      · exact finishLeader_inv _ h hrole hlive
     · exact h
   · exact h
 
@@ -575,6 +588,7 @@ theorem stepS_inv (s : State) (op : Op) (h : Inv s) : Inv (stepS s op) := by
   cases op with
   | adv ms => exact inv_frame h rfl rfl rfl rfl rfl rfl (fun _ hx => hx)
   | dropsvc => exact inv_frame h rfl rfl rfl rfl rfl rfl (fun _ hx => hx)
+  | bomb c => exact inv_frame h rfl rfl rfl rfl rfl rfl (fun _ hx => hx)
   | arrive c key sc cp =>
     simp only [stepS]
     split
@@ -750,12 +764,20 @@ theorem finishLeader_tinv {s : State} {c key k : Nat} (o : Out) (ht : TInv s)
     · intro key'; exact ended_done ..
   | never => exact ht
 
+theorem clonePanic_tinv {s : State} {c key k : Nat} (o : Out) (ht : TInv s)
+    (hr : reg s key = some c) : TInv (clonePanic s c key k o) := by
+  refine tinv_retire (evs := [.innerDone c key k o, .result c .panic]) ht hr rfl rfl ?_ ?_
+  · intro key'; simp [calls, isCall]
+  · intro key'; exact ended_done ..
+
 theorem pollLeader_tinv {s : State} {c key k : Nat} (ht : TInv s)
     (hr : reg s key = some c) : TInv (pollLeader s c key k) := by
   unfold pollLeader
   split
   · split
-    · exact finishLeader_tinv _ ht hr
+    · split
+      · exact clonePanic_tinv _ ht hr
+      · exact finishLeader_tinv _ ht hr
     · exact ht
   · exact ht
 
@@ -781,6 +803,7 @@ theorem stepS_tinv (s : State) (op : Op) (h : Inv s) (ht : TInv s) : TInv (stepS
   cases op with
   | adv ms => exact tinv_same (evs := []) ht rfl (by simp [stepS]) (by simp [calls]) (by simp [ended])
   | dropsvc => exact tinv_same (evs := []) ht rfl (by simp [stepS]) (by simp [calls]) (by simp [ended])
+  | bomb c => exact tinv_same (evs := []) ht rfl (by simp [stepS]) (by simp [calls]) (by simp [ended])
   | arrive c key sc cp =>
     simp only [stepS]
     split
@@ -856,13 +879,30 @@ theorem finishLeader_eq (s : State) (c key k : Nat) {o : Out} (ho : o ≠ .never
 theorem outChan_ne_opened (k : Nat) (o : Out) : outChan k o ≠ .opened := by
   cases o <;> simp [outChan]
 
+theorem outChan_closed_of_panic (k : Nat) (o : Out) (ho : o ≠ .never) (h : outRes k o = .panic) :
+    outChan k o = .closed := by
+  cases o <;> simp [outRes] at h <;> first | rfl | exact absurd rfl ho
+
+/-- what the leader itself returns / what it leaves in the channel when cloning the value unwinds -/
+theorem clonePanic_eq (s : State) (c key k : Nat) (o : Out) :
+    clonePanic s c key k o
+      = emit (retire s c key .closed) [.innerDone c key k o, .result c .panic] := rfl
+
+/-- a poll of a leader: nothing (inner call not finished), or the leader is retired — with the inner outcome
+`o`, returning `r` to its own caller and leaving the channel as `ch` (never open; closed if the leader panicked) -/
 theorem pollLeader_cases (s : State) (c key k : Nat) :
     pollLeader s c key k = s ∨
-    ∃ o, o ≠ Out.never ∧ pollLeader s c key k = finishLeader s c key k o := by
+    ∃ o r ch, o ≠ Out.never ∧ ch ≠ Chan.opened ∧ (r = Res.panic → ch = Chan.closed) ∧
+      pollLeader s c key k = emit (retire s c key ch) [.innerDone c key k o, .result c r] := by
   unfold pollLeader
   split
-  · split
-    · rename_i hc; exact Or.inr ⟨_, hc.2, rfl⟩
+  · rename_i t sc _ _
+    split
+    · rename_i hc
+      split
+      · exact Or.inr ⟨sc.out, .panic, .closed, hc.2, by simp, fun _ => rfl, rfl⟩
+      · exact Or.inr ⟨sc.out, outRes k sc.out, outChan k sc.out, hc.2, outChan_ne_opened k sc.out,
+          outChan_closed_of_panic k sc.out hc.2, finishLeader_eq s c key k hc.2⟩
     · exact Or.inl rfl
   · exact Or.inl rfl
 
@@ -890,20 +930,20 @@ theorem stepS_arrive_fresh {s : State} {c key : Nat} (sc : Step) (cp : Bool)
 /-- a poll of a live leader either changes nothing (inner call not finished) or retires the leader -/
 theorem poll_leader_effect {s : State} {c key k : Nat} (h : LiveLeader s c key k) :
     stepS s (.poll c) = s ∨
-    ∃ o, o ≠ Out.never ∧
-      (stepS s (.poll c)).log = s.log ++ [.innerDone c key k o, .result c (outRes k o)] ∧
+    ∃ o r ch, o ≠ Out.never ∧ ch ≠ Chan.opened ∧ (r = Res.panic → ch = Chan.closed) ∧
+      (stepS s (.poll c)).log = s.log ++ [.innerDone c key k o, .result c r] ∧
       reg (stepS s (.poll c)) key = none ∧
-      lookup (stepS s (.poll c)).chan c = some (outChan k o) ∧
+      lookup (stepS s (.poll c)).chan c = some ch ∧
       c ∈ (stepS s (.poll c)).gone := by
   rw [stepS_poll_leader h]
-  rcases pollLeader_cases s c key k with h0 | ⟨o, ho, h1⟩
+  rcases pollLeader_cases s c key k with h0 | ⟨o, r, ch, ho, hch, hp, h1⟩
   · exact Or.inl h0
-  · refine Or.inr ⟨o, ho, ?_⟩
-    rw [h1, finishLeader_eq s c key k ho]
+  · refine Or.inr ⟨o, r, ch, ho, hch, hp, ?_⟩
+    rw [h1]
     refine ⟨rfl, ?_, ?_, ?_⟩
     · show regOf ((key, none) :: s.inflight) key = none
       rw [regOf_cons]; simp
-    · show lookup ((c, outChan k o) :: s.chan) c = _
+    · show lookup ((c, ch) :: s.chan) c = _
       exact lookup_cons_self ..
     · show c ∈ c :: s.gone
       simp
@@ -964,9 +1004,9 @@ theorem finishLeader_role (s : State) (c key k : Nat) (o : Out) :
     (finishLeader s c key k o).role = s.role := by cases o <;> rfl
 
 theorem pollLeader_role (s : State) (c key k : Nat) : (pollLeader s c key k).role = s.role := by
-  rcases pollLeader_cases s c key k with h | ⟨o, _, h⟩
+  rcases pollLeader_cases s c key k with h | ⟨o, r, ch, _, _, _, h⟩
   · rw [h]
-  · rw [h]; exact finishLeader_role ..
+  · rw [h]; rfl
 
 theorem pollWaiter_role (s : State) (c l : Nat) : (pollWaiter s c l).role = s.role := by
   unfold pollWaiter; split <;> rfl
@@ -978,6 +1018,7 @@ theorem stepS_role_eq (s : State) (op : Op) (hop : ∀ c key sc cp, op ≠ .arri
   | adv ms => rfl
   | dropsvc => rfl
   | arrive c key sc cp => exact absurd rfl (hop c key sc cp)
+  | bomb c => rfl
   | poll c =>
     simp only [stepS]
     split
@@ -1014,6 +1055,7 @@ theorem stepS_role_mono (s : State) (op : Op) {x : Nat} {v : Role}
           exact role_ext _ hc hx
   | adv ms => rw [stepS_role_eq s _ (by intro _ _ _ _ h; cases h)]; exact hx
   | dropsvc => exact hx
+  | bomb c => exact hx
   | poll c => rw [stepS_role_eq s _ (by intro _ _ _ _ h; cases h)]; exact hx
   | drop c => rw [stepS_role_eq s _ (by intro _ _ _ _ h; cases h)]; exact hx
 
@@ -1033,6 +1075,7 @@ theorem stepS_gone (s : State) (op : Op) (x : Nat) (hk : lookup s.role x ≠ non
   cases op with
   | adv ms => exact Or.inl hx
   | dropsvc => exact Or.inl hx
+  | bomb c => exact Or.inl hx
   | arrive c key sc cp =>
     simp only [stepS] at hx
     split at hx
@@ -1054,12 +1097,13 @@ theorem stepS_gone (s : State) (op : Op) (x : Nat) (hk : lookup s.role x ≠ non
     split at hx
     · exact Or.inl hx
     · split at hx
-      · rcases pollLeader_cases s c _ _ with h | ⟨o, _, h⟩
+      · rcases pollLeader_cases s c _ _ with h | ⟨o, r, ch, _, _, _, h⟩
         · rw [h] at hx; exact Or.inl hx
         · rw [h] at hx
-          rcases finishLeader_gone _ _ _ _ _ _ hx with h' | h'
-          · exact Or.inl h'
+          simp [emit, retire] at hx
+          rcases hx with h' | h'
           · subst h'; exact Or.inr (Or.inl rfl)
+          · exact Or.inl h'
       · rcases pollWaiter_gone _ _ _ _ hx with h' | h'
         · exact Or.inl h'
         · subst h'; exact Or.inr (Or.inl rfl)
@@ -1099,6 +1143,7 @@ theorem stepS_chan_stable {s : State} (op : Op) {l : Nat} {ch : Chan} (h : Inv s
   cases op with
   | adv ms => exact hch
   | dropsvc => exact hch
+  | bomb c => exact hch
   | arrive c key' sc cp =>
     simp only [stepS]
     split
@@ -1121,10 +1166,10 @@ theorem stepS_chan_stable {s : State} (op : Op) {l : Nat} {ch : Chan} (h : Inv s
       have hcl : c ≠ l := by intro e; subst e; simp [hg] at hcg
       split
       · rename_i key' k' _
-        rcases pollLeader_cases s c key' k' with h0 | ⟨o, ho, h1⟩
+        rcases pollLeader_cases s c key' k' with h0 | ⟨o, r, ch', _, _, _, h1⟩
         · rw [h0]; exact hch
-        · rw [h1, finishLeader_eq _ _ _ _ ho]
-          show lookup ((c, _) :: s.chan) l = some ch
+        · rw [h1]
+          show lookup ((c, ch') :: s.chan) l = some ch
           rw [lookup_cons_ne _ _ hcl]; exact hch
       · unfold pollWaiter; split <;> exact hch
       · exact hch
@@ -1205,6 +1250,7 @@ theorem stepS_serialUniq (s : State) (op : Op) (h : Inv s) (hu : SerialUniq s) :
             · exact hu l1 l2 key1 key2 k h1' h2'
   | adv ms => unfold SerialUniq; rw [stepS_role_eq s _ (by intro _ _ _ _ h; cases h)]; exact hu
   | dropsvc => exact hu
+  | bomb c => exact hu
   | poll c => unfold SerialUniq; rw [stepS_role_eq s _ (by intro _ _ _ _ h; cases h)]; exact hu
   | drop c => unfold SerialUniq; rw [stepS_role_eq s _ (by intro _ _ _ _ h; cases h)]; exact hu
 
